@@ -11,7 +11,7 @@ function; LoopingCall timing.
 import ast
 import re
 
-from ..model import dotted, unparse, norm, walk_no_nested
+from ..model import dotted, unparse, norm, walk_no_nested, loop_exits, loop_of
 from ..rulelib import Ctx, nodes_calling, reaching_defs, value_assigned, short
 from .c05 import _yields
 
@@ -374,7 +374,7 @@ def run(check):
                    'self.buffers.values()' in unparse(n.owner.iter).replace(' ', '') and isinstance(n.owner.target, ast.Name) and
                    any(isinstance(c, ast.Call) and isinstance(c.func, ast.Attribute) and c.func.attr == 'close' and
                        dotted(c.func.value) == n.owner.target.id for c in ast.walk(n.owner)) and
-                   not any(isinstance(x, (ast.Break, ast.Return, ast.Continue)) for x in ast.walk(n.owner))]
+                   not loop_exits(n.owner, (ast.Break, ast.Return, ast.Continue))]
     exhausted = lambda a, lab, b: a in close_loops and isinstance(lab, tuple) and lab[0] == 'F'   # noqa
     if closes and clears and close_loops and all(c not in g.reach([g.entry], removed_edge=exhausted, normal_only=True) for c in clears):
       r_p.ok('BufferManager.clear closes every buffer before forgetting it', clr.loc())
